@@ -44,8 +44,21 @@ for tgt, pat in ((det3, '/tmp/mx/r3-*.txt'), (old3, '/tmp/mx/old3-*.txt')):
                 if '=' in kv:
                     c, rc = kv.split('=')
                     d[c] = int(rc)
+det4, old4 = {}, {}
+for tgt, pat in ((det4, '/tmp/mx/r4-*.txt'), (old4, '/tmp/mx/old4-*.txt')):
+    for f in sorted(glob.glob(pat)):
+        for line in open(f):
+            parts = line.split()
+            if not parts or '/' not in parts[0]:
+                continue
+            key = parts[0].replace('/m', '-v')
+            d = tgt.setdefault(key, {})
+            for kv in parts[1:]:
+                if '=' in kv:
+                    c, rc = kv.split('=')
+                    d[c] = int(rc)
 n = 0
-for d in sorted(glob.glob('/tmp/seed/out/C*/m*/')) + sorted(glob.glob('/tmp/seed/out2/C*/m*/')) + sorted(glob.glob('/tmp/seed/out3/C*/m*/')):
+for d in sorted(glob.glob('/tmp/seed/out/C*/m*/')) + sorted(glob.glob('/tmp/seed/out2/C*/m*/')) + sorted(glob.glob('/tmp/seed/out3/C*/m*/')) + sorted(glob.glob('/tmp/seed/out4/C*/m*/')):
     pid, k = d.rstrip('/').split('/')[-2:]
     round2 = '/out2/' in d
     round3 = '/out3/' in d
@@ -53,6 +66,9 @@ for d in sorted(glob.glob('/tmp/seed/out/C*/m*/')) + sorted(glob.glob('/tmp/seed
         k = k.replace('m', 'd')
     if round3:
         k = k.replace('m', 's')
+    round4 = '/out4/' in d
+    if round4:
+        k = k.replace('m', 'v')
     conf = os.path.join(d, 'confirm.json')
     if not os.path.exists(conf):
         continue
@@ -69,14 +85,14 @@ for d in sorted(glob.glob('/tmp/seed/out/C*/m*/')) + sorted(glob.glob('/tmp/seed
         am = json.load(open(os.path.join(d, 'meta.json')))
     except Exception:
         am = {}
-    checks = det2.get(sid, {}) if round2 else (det3.get(sid, {}) if round3 else det.get(sid, {}))
+    checks = det2.get(sid, {}) if round2 else (det3.get(sid, {}) if round3 else (det4.get(sid, {}) if round4 else det.get(sid, {})))
     meta = {
         "id": sid,
         "property": pid,
         "summary": am.get("summary", ""),
         "needs_to_manifest": am.get("needs_to_manifest", ""),
         "clause_violated": am.get("clause_violated", ""),
-        "round": 2 if round2 else (3 if round3 else 1),
+        "round": 2 if round2 else (3 if round3 else (4 if round4 else 1)),
         "kind": am.get("kind"),
         "minimal_trigger_size": am.get("minimal_trigger_size"),
         "origin": "written by a fresh sub-agent that saw only the property text and a scratch worktree of /repo (nothing from /verif)" + ("; round 2: asked for changes that cannot manifest on inputs with <=3 nodes, <=2 hyperedges, interfaces <=2, <=3 steps" if round2 else ""),
@@ -103,6 +119,9 @@ for d in sorted(glob.glob('/tmp/seed/out/C*/m*/')) + sorted(glob.glob('/tmp/seed
         for extra in ("site_a_only.diff", "site_b_only.diff"):
             if os.path.exists(os.path.join(d, extra)):
                 shutil.copy(os.path.join(d, extra), os.path.join(out, extra))
+    if round4:
+        meta["origin"] += "; round 4: asked for changes that depend on label/data values (V1), on aliasing or repetition of arguments (V2), on degenerate combinations (V3), or on the order in which results are listed (V4)"
+        meta["detected_by_own_check_of_revision_dc1b757"] = old4.get(sid, {}).get(pid) == 1
     json.dump(meta, open(os.path.join(out, 'meta.json'), 'w'), indent=1)
     n += 1
 print("kept", n)
